@@ -326,6 +326,10 @@ JudgeOut judge(const json &plan)
 					faults.push_back({"undeclared_name", {{"key", "mut"}, {"value", json::array({ci, ti, "nosuch_zz"})}}});
 				if (role == "v" && (vt == "int" || vt == "float" || vt == "bool"))
 					faults.push_back({"unconvertible_value", {{"key", "mut"}, {"value", json::array({ci, ti, "zz"})}}});
+				// errors raised by the scanner itself: an octal escape above 0xFF, a digit escape that is not octal
+				if ((role == "v" && vt == "str") || role == "a" || role == "t") {
+					faults.push_back({"bad_escape", {{"key", "mut"}, {"value", json::array({ci, ti, (ci + ti) % 2 ? "\"ab\\400\"" : "\"\\9z\""})}}});
+				}
 				if (role == "o")
 					faults.push_back({"wrong_punctuation", {{"key", "mut"}, {"value", json::array({ci, ti, ")"})}}});
 				if (role == "p")
@@ -369,7 +373,7 @@ Property P = [] {
 	p.level = "fault_enumeration";
 	p.rule = "seeded schema (no deprecated options; nested / multi / titled / free-form sections; include) and a rendered valid text with any mix of comment styles, blank lines and "
 		 "multi-line strings, delivered as buffer / stream / file and in half of the runs spread over an include tree; for EVERY token of every file one run per applicable fault: "
-		 "undeclared name (not in free-form sections), unconvertible value (int/float/bool), wrong punctuation, premature end right before the token and inside it - one byte after "
+		 "undeclared name (not in free-form sections), unconvertible value (int/float/bool), invalid escape sequence in a string / title / argument (raised by the scanner), wrong punctuation, premature end right before the token and inside it - one byte after "
 		 "its start and one byte before its end, i.e. inside strings, comments and names - (top-level source); in a third of the plans the schema carries value / validation "
 		 "callbacks and for EVERY invocation k the k-th one refuses and reports through cfg_error(): the diagnostic must name the line on which the triggering token ends; "
 		 "distinct = distinct (text, file, token, fault) tuples";
